@@ -409,6 +409,7 @@ func Check(r *ev.Run, replay string) {
 		}
 	}
 	longHistory(r, alpha)
+	limitSessions(r)
 	nctx := runContexts(r)
 	r.Set("states", len(allStates))
 	r.Set("transitions", len(seqs)+nctx)
@@ -417,7 +418,7 @@ func Check(r *ev.Run, replay string) {
 	r.Set("max_history_length", depth)
 	r.Set("feature_groups", groupNames)
 	r.Set("full_alphabet_history_length", fullDepth)
-	r.Set("rule", fmt.Sprintf("every sequence of 1..%d pieces over the core pieces plus one feature group at a time, and every sequence of 1..%d pieces over the whole %d-piece alphabet (definitions, uses, a loop, a closure, functions made by a factory that read and write a global, a constant; pieces the compiler must reject: undefined name, constant assignment, redeclaration, a rejected piece with a side-effecting prefix, a rejected piece that is the first to mention a method name, a syntax error; pieces that fail at run time, one of them mid-piece) fed to one compiler and one VM as cmd/risor/repl does; oracle: per-piece status/value/output and final globals equal the reference session model (a rejected piece has no effect; a failed piece keeps its effects up to the failure); rejected compositions: every expression slot of every statement and expression form (the F8 contexts, directly and through 16 wrappers) filled with an undefined name in 8 positions, as sessions [definitions, rejected, probe] and [definitions, probe, rejected, probe] with a probe piece that uses calls, a pipe, break, switch, a closure, defer and try; states = distinct (per-piece outcomes, globals) of the model, transitions = histories executed on the implementation", depth, fullDepth, len(alpha)))
+	r.Set("rule", fmt.Sprintf("every sequence of 1..%d pieces over the core pieces plus one feature group at a time, and every sequence of 1..%d pieces over the whole %d-piece alphabet (definitions, uses, a loop, a closure, functions made by a factory that read and write a global, a constant; pieces the compiler must reject: undefined name, constant assignment, redeclaration, a rejected piece with a side-effecting prefix, a rejected piece that is the first to mention a method name, a syntax error; pieces that fail at run time, one of them mid-piece) fed to one compiler and one VM as cmd/risor/repl does; oracle: per-piece status/value/output and final globals equal the reference session model (a rejected piece has no effect; a failed piece keeps its effects up to the failure); rejected compositions: every expression slot of every statement and expression form (the F8 contexts, directly and through 16 wrappers) filled with an undefined name in 8 positions, as sessions [definitions, rejected, probe] and [definitions, probe, rejected, probe] with a probe piece that uses calls, a pipe, break, switch, a closure, defer and try; limits (differential within the implementation): 10 pieces that fail at the call-depth, frame or operand limit, repeated 1-3 times, before 5 probes that need exactly what a fresh session allows; states = distinct (per-piece outcomes, globals) of the model, transitions = histories executed on the implementation", depth, fullDepth, len(alpha)))
 }
 
 // longHistory: a REPL session of many pieces must not run out of VM capacity.
